@@ -11,13 +11,13 @@ CHECKS = {
  "C01": dict(
     level="model_checking", ref="DESIGN.md §4 C01",
     technique="TLA+ spec RtStream/RtStreamAbs checked by TLC + TLC-generated call sequences replayed through libovni and validated against the spec (trace validation)",
-    text="TLC explores every call sequence of the scaled faithful model (CAP=56) and every fill level of the real 2 MiB buffer in the size-abstracted model; invariants Fidelity, OnlyMarkers, HeaderFirst, Tiling, BufferBound. The spec is bound to src/rt/ovni.c by replaying every call at every one of the last 64 fill levels plus TLC -simulate walks through the real library and validating the recorded file sizes and the decoded stream with RtStreamTrace.tla; runs are repeated under an LD_PRELOAD shim that makes write() truthfully short. The inductive invariant 0 <= fill < CAP and no nested flush (RtStreamInd.tla, same arithmetic module) is discharged by Apalache for the real capacity and a symbolic jumbo size.",
+    text="TLC explores every call sequence of the scaled faithful model (CAP=56) and every fill level of the real 2 MiB buffer in the size-abstracted model; invariants Fidelity, OnlyMarkers, HeaderFirst, Tiling, BufferBound. The spec is bound to src/rt/ovni.c by replaying every call at every one of the last 64 fill levels plus TLC -simulate walks through the real library and validating the recorded file sizes and the decoded stream with RtStreamTrace.tla; runs are repeated under an LD_PRELOAD shim that makes write() truthfully short, and three-thread programs (all threads freeing at once, with and without relocation from OVNI_TMPDIR) are validated stream by stream. The inductive invariant 0 <= fill < CAP and no nested flush (RtStreamInd.tla, same arithmetic module) is discharged by Apalache for the real capacity and a symbolic jumbo size.",
     note="Payload/jumbo bytes are opaque ids in TLA+; their byte equality (MCV, clock, payload, jumbo data) is checked by the harness decoder against the driver's emit log. Logical clock abstracts CLOCK_MONOTONIC. Exhaustive only within the stated constants."),
  "C02": dict(
     level="model_checking", ref="DESIGN.md §4 C02",
     technique="TLA+ spec RtStream/RtStreamAbs checked by TLC (ClockMonotone, FlushPaired, NoNestedFlush) + Apalache inductive invariant (RtStreamInd) + negative configurations + replay of TLC-generated protocol-conformant programs through libovni, trace validation and ovniemu -l",
     text="Same models as C01 with the validity invariants (tiling, monotone clocks, paired non-nested flush markers); the arithmetic of the pinned commit is kept as a negative configuration that TLC must refute. Every generated program is run against the real library, its stream validated by RtStreamTrace.tla (observed markers paired, clocks monotone, sizes) and the directory is fed to ovniemu -l which must accept.",
-    note="Programs are single-threaded protocol-conformant scripts (multi-thread isolation is C11). Exhaustive within constants; the emulator is part of the observation."),
+    note="Programs are single-threaded scripts plus three-thread programs whose threads run such scripts concurrently (forced interleavings are C11). Exhaustive within constants; the emulator is part of the observation."),
 
  "C04": dict(
     level="model_checking", ref="DESIGN.md §4 C04",
@@ -32,7 +32,7 @@ CHECKS = {
  "C06": dict(
     level="model_checking", ref="DESIGN.md §4 C06",
     technique="TLA+ specs Emu (View = function of thread state, binding and raw channel values) and Bay (channel/patch-bay/mux implementation layer) explored by TLC over all interleavings of value/state/affinity events and all write orders; Bay behaviours replayed in-process on chan.c/bay.c/mux.c; histories replayed on ovniemu for every published channel of every model; views validated by EmuTrace.tla",
-    text="Property layer View(thread/CPU, quantity, tracking mode) is checked on the real Paraver output after every event of TLC-generated histories (one channel per tracking mode ANY/RUN/ACT, stack and single), and the accepted histories are re-instantiated for each of the 19 published channels of the 8 models (table spec/data/events.json), with virtual CPUs in the alphabet. Implementation layer Bay.tla (chan_set / dirty list / mux callbacks of chan.c, bay.c, mux.c; every write order of an event; three refuted wrong variants) is replayed in-process on the real chan/bay/mux objects (drivers/bayharness). The traces recorded by the repository's own emulation test programs are validated against the same View (suite traces).",
+    text="Property layer View(thread/CPU, quantity, tracking mode) is checked on the real Paraver output after every event of TLC-generated histories (one channel per tracking mode ANY/RUN/ACT, stack and single), and the accepted histories are re-instantiated for each of the 19 published channels of the 8 models (table spec/data/events.json), with virtual CPUs in the alphabet, and for the stack and single mark channels of the ovni model. Implementation layer Bay.tla (chan_set / dirty list / mux callbacks of chan.c, bay.c, mux.c; every write order of an event; three refuted wrong variants) is replayed in-process on the real chan/bay/mux objects (drivers/bayharness). The traces recorded by the repository's own emulation test programs are validated against the same View (suite traces).",
     note="Bay.tla models one mux (select + N inputs + output), the wiring used for thread and CPU tracking; the whole-emulator composition is bound through the property layer. CPU idle default (Resting) is allowed where the property allows it."),
  "C07": dict(
     level="model_checking", ref="DESIGN.md §4 C07",
@@ -53,7 +53,7 @@ CHECKS = {
  "C09": dict(
     level="fault_enumeration", ref="DESIGN.md §4 C09",
     technique="TLA+ spec RtFs (literal system-call sequence of the runtime + Crash between any two calls) checked by TLC; every system call index of every scenario program is killed with strace on the real library and the surviving directories + ovniemu verdict are validated by RtFsTrace.tla",
-    text="TLC checks C09a/C09b on the bounded family (direct/tmp mode, 1-2 flushes, copy chunk sizes, both readdir orders, accepted-prefix positions) and refutes the negative configurations (relocation in readdir order). On the code: the strace call list of each scenario must be exactly the model's script, and for every call index N the process is re-run with SIGKILL at the entry of call N; the abstract disk state must equal the model state at that crash point and the monitors are evaluated with the observed emulator verdict.",
+    text="TLC checks C09a/C09b on the bounded family (direct/tmp mode, 1-2 flushes, copy chunk sizes, both readdir orders, accepted-prefix positions) and refutes the negative configurations (relocation in readdir order). On the code: the strace call list of each scenario must be exactly the model's script, and for every call index N the process is re-run with SIGKILL at the entry of call N; the abstract disk state must equal the model state at that crash point and the monitors are evaluated with the observed emulator verdict. The error-injection family of C10 is also run and judged by the C09 monitors (a stream is marked finished only after its bytes are in place, also on the error paths).",
     note="Single-threaded scenarios (threads write disjoint directories); SIGKILL delivered by strace at syscall entry; the emulator is the observation of 'accepted'. The scenario 'boundary-tmp' places the end event exactly on the stdio copy-chunk boundary."),
  "C10": dict(
     level="fault_enumeration", ref="DESIGN.md §4 C10",
